@@ -125,6 +125,18 @@ NEEDS = {
  'C16-L': ('readline searches the terminator from a remembered offset', 'a multi byte terminator cut across a chunk boundary', 'caught at once'),
  'C19-K': ('disable decision counts characters instead of bytes', 'an equipment id with multi byte or escape-needing characters near the limit', 'caught at once'),
  'C19-L': ('raw byte pre-filter before JSON parsing', 'a request whose value is written with JSON escapes', 'strengthened: escaped spellings of the request added to the datagram catalogue'),
+ 'C04-M': ('partial struct merged with nothing when the cached value is in error state', 'a struct parameter whose last read failed, then a partial change', 'strengthened: read failure before the partial change added as a precondition'),
+ 'C04-N': ('automatic limit check not installed when a check method is inherited', 'check hook in a base class, limits in a subclass', 'caught at once'),
+ 'C05-M': ('clients notified after the update lock is released', 'two threads updating one parameter', 'caught at once (symbolic schedule)'),
+ 'C05-N': ('activate registers the listener after the snapshot', 'a poller update during the activation', 'caught at once (symbolic schedule)'),
+ 'C08-M': ('unsubscribe returns early when the module was never subscribed', 'parameter scope active, module scope deactivated, nobody ever activated the module', 'caught at once'),
+ 'C08-N': ('snapshot built under the update lock but sent after it', 'an update between lock release and send', 'caught at once (symbolic schedule)'),
+ 'C13-M': ('half slow interval taken from the module owning the thread', 'modules on the poll thread of a module with a much longer slow interval', 'strengthened: owner-slow variant of the different-slow-intervals case added'),
+ 'C13-N': ('setFastPoll restores a saved interval', 'interval changed during fast polling', 'caught at once'),
+ 'C17-M': ('rename before close', 'crash or I/O error between rename and close with buffered data', 'caught at once (buffered file model)'),
+ 'C17-N': ('stored falsy value replaced by the default', 'last saved value 0 / False / empty', 'caught at once'),
+ 'C18-M': ('insideRW guard as a context manager without finally', 'a struct access failing inside a member, then a member update', 'caught at once'),
+ 'C18-N': ('checkLimits tests the limit for truth', 'a limit that is exactly 0', 'caught at once'),
 }
 
 
